@@ -165,7 +165,7 @@ class FnT(GD.FnD):
                         names.discard(y.id)
             if isinstance(n, ast.Yield):
                 has_yield = True
-        names = sorted(x for x in names if x in env and env[x] in ("oNset", "pagerecs", "N", "bool", "bytes", "listB", "pdict"))
+        names = sorted(x for x in names if x in env and env[x] in ("oNset", "pagerecs", "N", "bool", "bytes", "listB", "pdict", "ndict"))
         return names, has_yield
 
     def forloop(self, s, env, nxt):
